@@ -6,7 +6,7 @@ export GOFLAGS=-mod=mod GOPROXY=off GOSUMDB=off GOTOOLCHAIN=local
 SD="$(cd "$1" && pwd)"; PROP="$2"; shift 2
 CHECKS="${*:-$PROP}"
 WT=$(mktemp -d /tmp/sv-XXXXXX)
-trap 'git -C /repo worktree remove --force "$WT" >/dev/null 2>&1; rm -rf "$WT"; rm -rf /verif/bin/alt-*' EXIT
+trap 'git -C /repo worktree remove --force "$WT" >/dev/null 2>&1; rm -rf "$WT"; rm -rf "/verif/bin/alt-$(echo "$WT" | sha1sum | cut -c1-10)"' EXIT
 rmdir "$WT"; git -C /repo worktree add -q "$WT" HEAD || exit 3
 mkdir -p "$WT/seeddemo"; cp "$SD"/demo_test.go "$WT/seeddemo/" 2>/dev/null || cp "$SD"/seeddemo/*.go "$WT/seeddemo/" || { echo "no demo"; exit 3; }
 echo "== demo WITHOUT the change (must pass)"
